@@ -19,8 +19,14 @@ func famC20(g *Gen, o *Out, n int, thorough bool) {
 		wo := g.wOpts()
 		wo.mcs = 2048
 		target := []string{"path", "stream"}[g.pick(2)]
+		sv2 := false
 		if target == "stream" {
 			wo.v1 = true // a stream target is CARv1 by construction (the constructor sets WriteAsCarV1)
+			if g.pick(6) == 0 {
+				// … unless the caller says otherwise: an explicit WriteAsCarV1(false) is the caller's word,
+				// and a plain stream cannot carry a CARv2 — every Put is refused, nothing is written
+				wo.v1, sv2 = false, true
+			}
 		}
 		bs := g.Blocks(5)
 		if len(bs) == 0 {
@@ -75,7 +81,7 @@ func famC20(g *Gen, o *Out, n int, thorough bool) {
 			}
 			return "exists=1 out=" + hexOr(b)
 		}
-		o.Line(fmt.Sprintf("dopen target=%s pre=%s %s roots=%s", target, pre, wo, rootsArg(roots)), "r=ok "+state())
+		o.Line(fmt.Sprintf("dopen target=%s pre=%s sv2=%d %s roots=%s", target, pre, b2i(sv2), wo, rootsArg(roots)), "r=ok "+state())
 		o.Count("pre/" + pre)
 		var fired []string
 		nextID := 1
